@@ -76,9 +76,41 @@ Theorem C11_padstring_bytes : forall s str enclen s',
 Proof. exact padstring_fields. Qed.
 Print Assumptions C11_padstring_bytes.
 
+(* ... and read back identically by bufr_getstring, at ANY bit offset (the prefix s0 is arbitrary) *)
+Theorem C11_string_roundtrip : forall s0 str enclen s,
+  WF s0 -> Forall (fun c => c < 256) str -> put_padstring s0 str enclen = Some s ->
+  let d := wbytes s in
+  let body := firstn enclen str in
+  exists s', getstring d (length d) (rst_of_pos (N.to_nat (slen s0))) enclen []
+               = Some (body ++ repeat 32 (enclen - length body), 0%Z, s')
+          /\ rpos s' = N.to_nat (slen s).
+Proof. exact string_roundtrip. Qed.
+Print Assumptions C11_string_roundtrip.
+
+(* reading a string touches no memory outside the section, whatever the cursor and the length ... *)
+Theorem C11_getstring_no_oob : forall len d L s acc, (L <= length d)%nat -> getstring d L s len acc <> None.
+Proof. exact getstring_no_oob. Qed.
+Print Assumptions C11_getstring_no_oob.
+
+(* ... and a string that runs past the end of the section reports an error *)
+Theorem C11_getstring_past_end : forall len d L s acc r,
+  L = length d -> RWF L s -> (rpos s + 8 * len > 8 * L)%nat ->
+  getstring d L s len acc = Some r -> (snd (fst r) < 0)%Z.
+Proof. exact getstring_past_end. Qed.
+Print Assumptions C11_getstring_past_end.
+
 (* non-vacuity: a concrete non-trivial state meets the hypotheses *)
 Example C11_example :
   exists s, write_fields (winit 4) [(5,3%nat); (1023,10%nat); (0xABCDE,20%nat); (2^64-1, 64%nat)] = Some s
             /\ WF s /\ wbytes s = [191;253;94;111;127;255;255;255;255;255;255;255;128].
 Proof. eexists. vm_compute. split; [reflexivity|]. split; [|reflexivity].
   split; [lia|]. split; [repeat constructor|]. intros _. split; reflexivity. Qed.
+
+Example C11_string_example :
+  match write_fields (winit 4) [(5,3%nat)] with
+  | Some s0 => match put_padstring s0 [65;66;67] 5 with
+               | Some s => WF s0 /\ getstring (wbytes s) (length (wbytes s)) (rst_of_pos 3) 5 []
+                             = Some ([65;66;67;32;32], 0%Z, rst_of_pos 43)
+               | None => False end
+  | None => False end.
+Proof. vm_compute. split; [|reflexivity]. split; [lia|]. split; [repeat constructor|]. intros _. split; reflexivity. Qed.
